@@ -58,7 +58,7 @@ func (c *c18) Assumptions() []string {
 }
 
 func (c *c18) ProbeNames() []string {
-	return []string{"json_stdout_compared", "formatted_json_stdout_compared", "json_file_compared", "formatted_json_file_compared", "stale_json_file_longer_than_document", "invalid_invocation_checked", "compile_error_invocation_checked", "glob_selected_several_files", "absolute_glob", "src_file_program", "no_output_flag", "mode_default_new_replace", "mode_overwrite_replace", "mode_nothing_replace", "no_file_matches_pattern", "invocation_after_earlier_write", "multi_command_program", "document_order_compared"}
+	return []string{"json_stdout_compared", "formatted_json_stdout_compared", "json_file_compared", "formatted_json_file_compared", "stale_json_file_longer_than_document", "invalid_invocation_checked", "compile_error_invocation_checked", "glob_selected_several_files", "absolute_glob", "src_file_program", "no_output_flag", "mode_default_new_replace", "mode_overwrite_replace", "mode_nothing_replace", "no_file_matches_pattern", "invocation_after_earlier_write", "multi_command_program", "document_order_compared", "src_file_with_crlf", "huge_input_file", "huge_document_compared"}
 }
 
 func (c *c18) SweepPrefix(string, uint64) []uint64 { return nil }
@@ -81,6 +81,9 @@ func (c *c18) Init(env *Env) error {
 		&c06prog{Cmds: []string{"find all at least 1 (digit = d) named ds"}},
 		&c06prog{Cmds: []string{"find top 2 'a'"}},
 		&c06prog{Cmds: []string{"find all 'qqqq'"}},
+		&c06prog{Cmds: []string{"find all any"}},                                                            // one match per byte
+		&c06prog{Cmds: []string{"find all 'an\nb'"}},                                                        // a string literal that runs over a line end
+		&c06prog{Cmds: []string{"find all 'an' or '" + strings.Repeat("x", 66000) + "'", "find all digit"}}, // a source line longer than 64 KiB
 		// several commands: results are command-major over the file list; a replace command only last,
 		// so that earlier commands see the original content in every mode
 		&c06prog{Cmds: []string{"find all 'an'", "find all digit"}},
@@ -207,6 +210,25 @@ func (c *c18) Run(ctx *RunCtx) *RunResult {
 		}
 		model[cand[i]] = content
 	}
+	hugeOdds := 400
+	if c.env.Tier == "thorough" {
+		hugeOdds = 150
+	}
+	if t.Draw(hugeOdds) == 1 {
+		// far more matches than usual: hundreds of thousands, a JSON document of tens of megabytes
+		// with multi-byte characters in it
+		var hb []byte
+		word := strings.Repeat("\u00e9", 20+t.Draw(30))
+		for len(hb) < 150000 {
+			hb = append(hb, "a b1 an "...)
+			if len(hb)%7 == 0 {
+				hb = append(hb, word...)
+				hb = append(hb, ' ')
+			}
+		}
+		model["hug\u00e9.txt"] = hb
+		ctx.Count("huge_input_file", 1)
+	}
 	if t.Draw(3) == 0 {
 		model["out.json"] = []byte(strings.Repeat("{\"stale\": true, \"pad\": \"xxxxxxxxxxxxxxxx\"}\n", 300))
 	}
@@ -245,6 +267,16 @@ func (c *c18) Run(ctx *RunCtx) *RunResult {
 			src = prog.source()
 		}
 		useSrcFile := t.Draw(3) == 0
+		if useSrcFile && prog != nil && t.Draw(3) == 1 {
+			// the same program saved with CRLF line ends
+			cr := &c06prog{Defs: strings.ReplaceAll(prog.Defs, "\n", "\r\n"), Sep: "\r\n"}
+			for _, cm := range prog.Cmds {
+				cr.Cmds = append(cr.Cmds, strings.ReplaceAll(cm, "\n", "\r\n"))
+			}
+			prog = cr
+			src = prog.source()
+			ctx.Count("src_file_with_crlf", 1)
+		}
 		var argv []string
 		if useSrcFile {
 			os.WriteFile(filepath.Join(root, "prog.vore"), []byte(src), 0644)
@@ -275,6 +307,18 @@ func (c *c18) Run(ctx *RunCtx) *RunResult {
 			abs = true
 		default:
 			pat = "b.txt"
+		}
+		if _, huge := model["hug\u00e9.txt"]; huge && invalidKind == 0 && !compileFails && t.Draw(2) == 1 {
+			// the huge file, every byte a match: more than a hundred thousand matches in one document
+			pat, abs = "hug\u00e9.txt", false
+			for _, p := range c.progs {
+				if len(p.Cmds) == 1 && p.Cmds[0] == "find all any" {
+					prog = p
+					src = p.source()
+				}
+			}
+			argv = []string{"-com", src}
+			useSrcFile = false
 		}
 		patArg := pat
 		if abs {
@@ -398,7 +442,7 @@ func (c *c18) Run(ctx *RunCtx) *RunResult {
 			}
 			simrt.Reset(1, nil, 1)
 			simrt.Solo()
-			simrt.OpStart(20000000)
+			simrt.OpStart(600000000)
 			o, ms := doRunFiles(prog.whole, absFiles, engine.NOTHING, "")
 			simrt.OpEnd()
 			res.Steps += simrt.Steps
@@ -553,6 +597,9 @@ func (c *c18) Run(ctx *RunCtx) *RunResult {
 			for _, l := range got {
 				n += len(l)
 			}
+			if n > 100000 {
+				ctx.Count("huge_document_compared", 1)
+			}
 			if n != nExp {
 				addV("json-document", what+"-match-count", fmt.Sprintf("%s: %s holds %d matches, the library finds %d in %v", short, what, n, nExp, expFiles))
 				return
@@ -591,7 +638,7 @@ func (c *c18) Run(ctx *RunCtx) *RunResult {
 						}
 						simrt.Reset(1, nil, 1)
 						simrt.Solo()
-						simrt.OpStart(20000000)
+						simrt.OpStart(600000000)
 						o, ms := doRunFiles(prog.whole, files, engine.NOTHING, "")
 						simrt.OpEnd()
 						simrt.Stop()
